@@ -160,8 +160,10 @@ def _replay_q(ctx, cases, events, stats, only_groups=None, use='first'):
         x, y, z, w = quat[1], quat[2], quat[3], quat[0]
         nq = math.sqrt(refs[0]['n'])
         rvar = sc.spatial.rotation(value=np.array([x, y, z, w], dtype='float64') / nq)
-        unit_b = ('m', 'mm', 'angstrom')[gi % 3]
-        unit_s = unit_b if form['beam_units'] == 'same' else ('mm', 'm', 'm')[gi % 3]
+        # beams as plain numbers (unit 'dimensionless', e.g. positions read without a unit) are beams like any other:
+        # only their direction enters (their lengths are integers > 1 here)
+        unit_b = ('m', 'mm', 'angstrom', 'dimensionless')[gi % 4]
+        unit_s = unit_b if form['beam_units'] == 'same' else ('mm', 'm', 'm', 'dimensionless')[gi % 4]
         lv = np.array(lams, dtype=form['dtype'])
         if form['layout'] == 'outer':
             lam = sc.array(dims=['wavelength'], values=lv, unit=form['unit'], dtype=form['dtype'])
